@@ -1,6 +1,6 @@
 """C04 - sensor orientation and azimuth handling are geometrically consistent.
 
-E2.  Nine families of root cases, every case executed on the real hvsrpy code:
+E2.  Ten families of root cases, every case executed on the real hvsrpy code:
 
 orient      SeismicRecording3C(deployed d).orient_sensor_to(t) [.orient_sensor_to(t2)] [.orient_sensor_to(d)]
             for the full product d x t x t2 of the angle alphabet (including angles less than 0.1 degree apart),
@@ -22,10 +22,17 @@ azimuthal   process(azimuthal) == stack of process(single azimuth) row for row, 
 rotdpp      RotDpp non-decreasing in the percentile, inside [min, max] of the single-azimuth curves.
 invariant   squared-average family, total-horizontal-energy family, diffuse field: unchanged by any
             re-orientation / any deployment angle (geometric mean as the control that must change).
-preprocess  preprocess(orient=t) == orient_sensor_to(t) followed by preprocess(orient=None).
+preprocess  preprocess(orient=t) == orient_sensor_to(t) followed by preprocess(orient=None); also for a sensor
+            deployed a fraction of a degree away from the target (30.06 -> 30) and a target a fraction of a degree
+            away from the deployed orientation.
+mixed       lists of recordings with unequal time steps (words over dt, 2 dt, dt / 2), with
+            handle_dissimilar_time_steps_by omitted or passed (the same way at both entry points), and with every
+            other argument omitted as well: process(azimuthal) == stack of process(single azimuth), curve count
+            included; RotDpp row k inside [min, max] of row k of the single-azimuth curves.
 """
 import contextlib
 import io
+import itertools
 import math
 import warnings
 
@@ -143,17 +150,26 @@ def make_settings(kind, cfg, fcs, fft=None):
     kw = dict(window_type_and_width=["tukey", cfg["tukey"]],
               smoothing=dict(operator=op, bandwidth=bw, center_frequencies_in_hz=list(fcs)),
               fft_settings=FFT_REQ[cfg["fft"]]() if fft is None else dict(fft))
+    return _construct(kind, kw)
+
+
+def _construct(kind, kw):
+    """The settings object of ``kind``; every argument that is in neither ``kind`` nor ``kw`` is left to its default."""
     k = kind["kind"]
+    kw = dict(kw)
     if k == "fd":
         return hvsrpy.HvsrTraditionalProcessingSettings(method_to_combine_horizontals=kind["method"], **kw)
     if k == "single":
         return hvsrpy.HvsrTraditionalSingleAzimuthProcessingSettings(azimuth_in_degrees=kind["azimuth"], **kw)
     if k == "rotdpp":
+        if kind.get("azimuths") is not None:
+            kw["azimuths_in_degrees"] = list(kind["azimuths"])
         return hvsrpy.HvsrTraditionalRotDppProcessingSettings(
-            ppth_percentile_for_rotdpp_computation=kind["percentile"],
-            azimuths_in_degrees=list(kind["azimuths"]), **kw)
+            ppth_percentile_for_rotdpp_computation=kind["percentile"], **kw)
     if k == "azimuthal":
-        return hvsrpy.HvsrAzimuthalProcessingSettings(azimuths_in_degrees=list(kind["azimuths"]), **kw)
+        if kind.get("azimuths") is not None:
+            kw["azimuths_in_degrees"] = list(kind["azimuths"])
+        return hvsrpy.HvsrAzimuthalProcessingSettings(**kw)
     if k == "diffuse":
         return hvsrpy.HvsrDiffuseFieldProcessingSettings(**kw)
     raise KeyError(k)
@@ -257,6 +273,14 @@ def roots(tier, seed):
     for ti in range(2):
         for d in ANGLES:
             out.append(dict(part="preprocess", triple=ti, d=d))
+    nw = len(WINDOWS) if thorough else 4
+    for i, pattern in enumerate(MIXED_PATTERNS if thorough else MIXED_PATTERNS_QUICK):
+        for wi in sorted({i % nw, (i + 3) % nw} if thorough else {i % nw}):
+            out.append(dict(part="mixed", wi=wi, pattern=pattern, d=ANGLES[(i + wi) % len(ANGLES)]))
+    for i, pattern in enumerate(MIXED_PATTERNS if thorough else BARE_ALL_PATTERNS_QUICK):
+        if thorough and (len(set(pattern)) == 1 or len(pattern) > 3):
+            continue
+        out.append(dict(part="mixed", wi=(i + 1) % nw, pattern=pattern, d=ANGLES[(i + 2) % len(ANGLES)], bare_all=True))
     return out
 
 
@@ -862,6 +886,34 @@ def _part_azimuthal(root, ctx, tier):
                           explanation="frequency vector of the azimuthal result is not the requested centres")
 
 
+def _judge_rotdpp(ctx, root, detail, lo, hi, curves, tag):
+    """RotDpp curves (percentile -> rows) against the envelope [lo, hi] of the single-azimuth curves, row for row."""
+    slack = 1 + RTOL
+    obs = {str(p): curves[p].tolist() for p in PERCENTILES}
+    for p1, p2 in zip(PERCENTILES[:-1], PERCENTILES[1:]):
+        if np.any(curves[p2] * slack < curves[p1]):
+            ctx.violation(f"C04:rotdpp{tag}:not-monotone-in-percentile", root, detail=dict(detail, percentiles=[p1, p2]),
+                          expected=f"RotD{p2} >= RotD{p1}", observed=obs,
+                          explanation="RotDpp decreases when the percentile increases")
+    for p in PERCENTILES:
+        if np.any(curves[p] * slack < lo):
+            ctx.violation(f"C04:rotdpp{tag}:below-minimum-over-azimuths", root, detail=dict(detail, percentile=p),
+                          expected=dict(minimum=lo.tolist()), observed=obs,
+                          explanation="RotDpp lies below the smallest single-azimuth HVSR of its azimuth set")
+        if np.any(curves[p] > hi * slack):
+            ctx.violation(f"C04:rotdpp{tag}:above-maximum-over-azimuths", root, detail=dict(detail, percentile=p),
+                          expected=dict(maximum=hi.tolist()), observed=obs,
+                          explanation="RotDpp lies above the largest single-azimuth HVSR of its azimuth set")
+    if not close(curves[0], lo, rtol=RTOL):
+        ctx.violation(f"C04:rotdpp{tag}:rotd0-is-not-the-minimum", root, detail=detail, expected=lo.tolist(),
+                      observed=curves[0].tolist(), explanation="the 0th percentile over the azimuths is not "
+                                                               "the minimum of the single-azimuth curves")
+    if not close(curves[100], hi, rtol=RTOL):
+        ctx.violation(f"C04:rotdpp{tag}:rotd100-is-not-the-maximum", root, detail=detail, expected=hi.tolist(),
+                      observed=curves[100].tolist(), explanation="the 100th percentile over the azimuths is "
+                                                                 "not the maximum of the single-azimuth curves")
+
+
 # ---------------------------------------------------------------------------
 # RotDpp: monotone in the percentile, inside the envelope of the single azimuths
 
@@ -871,7 +923,6 @@ def _part_rotdpp(root, ctx, tier):
     arrays = window_arrays(w, nwin)
     azs = AZ_SETS[root["azset"]]
     space, fcs_sets = cfg_space(L, dt, ["nopad", "default"])
-    slack = 1 + RTOL
     for cfg in product.deviations(space, 2 if tier == "quick" else None):
         fcs = fcs_sets[cfg["fcs"]]
         ctx.count("states")
@@ -911,29 +962,7 @@ def _part_rotdpp(root, ctx, tier):
         if (root["wi"], root["azset"], nwin) == (0, "four", 1) and _is_default(space, cfg):
             ctx.sample(dict(root=root, case=detail, single_min=lo[0].tolist(), single_max=hi[0].tolist(),
                             rotd={str(p): curves[p][0].tolist() for p in PERCENTILES}))
-        obs = {str(p): curves[p].tolist() for p in PERCENTILES}
-        for p1, p2 in zip(PERCENTILES[:-1], PERCENTILES[1:]):
-            if np.any(curves[p2] * slack < curves[p1]):
-                ctx.violation("C04:rotdpp:not-monotone-in-percentile", root, detail=dict(detail, percentiles=[p1, p2]),
-                              expected=f"RotD{p2} >= RotD{p1}", observed=obs,
-                              explanation="RotDpp decreases when the percentile increases")
-        for p in PERCENTILES:
-            if np.any(curves[p] * slack < lo):
-                ctx.violation("C04:rotdpp:below-minimum-over-azimuths", root, detail=dict(detail, percentile=p),
-                              expected=dict(minimum=lo.tolist()), observed=obs,
-                              explanation="RotDpp lies below the smallest single-azimuth HVSR of its azimuth set")
-            if np.any(curves[p] > hi * slack):
-                ctx.violation("C04:rotdpp:above-maximum-over-azimuths", root, detail=dict(detail, percentile=p),
-                              expected=dict(maximum=hi.tolist()), observed=obs,
-                              explanation="RotDpp lies above the largest single-azimuth HVSR of its azimuth set")
-        if not close(curves[0], lo, rtol=RTOL):
-            ctx.violation("C04:rotdpp:rotd0-is-not-the-minimum", root, detail=detail, expected=lo.tolist(),
-                          observed=curves[0].tolist(), explanation="the 0th percentile over the azimuths is not "
-                                                                   "the minimum of the single-azimuth curves")
-        if not close(curves[100], hi, rtol=RTOL):
-            ctx.violation("C04:rotdpp:rotd100-is-not-the-maximum", root, detail=detail, expected=hi.tolist(),
-                          observed=curves[100].tolist(), explanation="the 100th percentile over the azimuths is "
-                                                                     "not the maximum of the single-azimuth curves")
+        _judge_rotdpp(ctx, root, detail, lo, hi, curves, "")
 
 
 # ---------------------------------------------------------------------------
@@ -1005,6 +1034,12 @@ PRE_L, PRE_DT = 64, 0.01
 # how the caller spells the target: every real number type a target taken from a list, an np.arange or a file can have
 TARGET_TYPES = {"int": int, "float": float, "np.int64": np.int64, "np.int32": np.int32, "np.float32": np.float32,
                 "np.float64": np.float64, "array0d": lambda v: np.array(float(v))}
+INTEGER_TARGET_TYPES = ("int", "np.int64", "np.int32")
+# nearly tied orientations: the sensor is deployed a fraction of a degree away from the target (a compass reading of
+# 30.06 degrees oriented to 30), or the target is a fraction of a degree away from the deployed orientation.  The
+# base angle b is the root's deployed orientation: ["deployed", x] = deployed at b + x and oriented to b,
+# ["target", x] = deployed at b and oriented to b + x.  A re-orientation by 0.03 degree is still a rotation.
+PRE_TIES = [None, ["deployed", 0.06], ["deployed", -0.08], ["target", 0.03], ["deployed", 0.5]]
 
 
 def _pre_settings(method, orient, cfg):
@@ -1036,12 +1071,24 @@ def _part_preprocess(root, ctx, tier):
     atol = ATOL_REL * big * 10
     space = dict(target=list(ANGLES), method=["hvsr", "psd"], window=[None, 0.21],
                  detrend=["linear", "constant", "none"], corners=[[None, None], [5.0, None], [2.0, 20.0]],
-                 nrec=[1, 2], ttype=list(TARGET_TYPES))
+                 nrec=[1, 2], ttype=list(TARGET_TYPES), tie=list(PRE_TIES))
+    base_angle = d
     for cfg in product.deviations(space, 2 if tier == "quick" else None):
-        t, nrec = TARGET_TYPES[cfg["ttype"]](cfg["target"]), cfg["nrec"]
+        tie = cfg["tie"]
+        if tie is None:
+            d, target = base_angle, cfg["target"]
+        elif cfg["target"] != space["target"][0]:
+            continue            # a nearly tied pair replaces the target dimension: no duplicates
+        elif tie[0] == "deployed":
+            d, target = base_angle + tie[1], base_angle
+        else:
+            d, target = base_angle, base_angle + tie[1]
+        if cfg["ttype"] in INTEGER_TARGET_TYPES and target != int(target):
+            continue            # an integer type cannot spell a fractional target
+        t, nrec = TARGET_TYPES[cfg["ttype"]](target), cfg["nrec"]
         arrays = arrays0[:nrec]
         ctx.count("states")
-        detail = dict(config=cfg, deployed=d, signals=list(names), L=PRE_L, dt=PRE_DT)
+        detail = dict(config=dict(cfg, target=target), deployed=d, signals=list(names), L=PRE_L, dt=PRE_DT)
         a_res = _preprocess(ctx, fresh(arrays, PRE_DT, d), _pre_settings(cfg["method"], t, cfg))
         turned = fresh(arrays, PRE_DT, d)
         for r in turned:
@@ -1058,12 +1105,16 @@ def _part_preprocess(root, ctx, tier):
                           explanation="preprocess raises with the orientation step but not without (or vice versa)")
             continue
         ctx.count("validated")
-        t = cfg["target"]
+        # the direction the caller's spelling of the target denotes (a single-precision 30.03 is 30.030000686...)
+        t = float(np.asarray(t))
+        label_atol = 1e-4 if cfg["ttype"] == "np.float32" else 1e-9
         cls = _angle_class(t - d)
         if cls in NONTRIVIAL:
-            ctx.nontrivial_case(("preprocess", root["triple"], d, repr(cfg)))
+            ctx.nontrivial_case(("preprocess", root["triple"], base_angle, repr(cfg)))
             if cfg["ttype"] not in ("int", "float"):
                 ctx.count("preprocess_numpy_typed_targets")
+        if tie is not None:
+            ctx.count("preprocess_nearly_tied_validated")
         ctx.outcome(("preprocess", cfg["method"], len(a_res[1]), cls, cfg["detrend"], repr(cfg["corners"])))
         wa, wb, wn = a_res[1], b_res[1], n_res[1]
         okay = len(wa) == len(wb)
@@ -1077,7 +1128,7 @@ def _part_preprocess(root, ctx, tier):
                           observed=[[x.tolist() for x in win[:3]] for win in wa][:2],
                           explanation="preprocess(orient_to=t) differs from orient_sensor_to(t) followed by "
                                       "preprocess(orient_to=None)")
-        if not all(RR.same_direction(win[3], t) for win in wa):
+        if not all(RR.same_direction(win[3], t, atol=label_atol) for win in wa):
             ctx.violation(f"C04:preprocess:{cfg['method']}:degrees_from_north:not-target", root, detail=detail,
                           expected=f"{t} modulo 360", observed=[win[3] for win in wa],
                           explanation="windows returned by preprocess(orient_to=t) are not labelled with t")
@@ -1089,6 +1140,11 @@ def _part_preprocess(root, ctx, tier):
             ctx.count("preprocess_orientation_evaluated")
             if len(wa) == len(wn) and not all(close(x[0], y[0], rtol=1e-6, atol=atol) for x, y in zip(wa, wn)):
                 ctx.count("preprocess_orientation_changes_output")
+            # the oracle must be able to tell a re-orientation by a fraction of a degree from none at all
+            if tie is not None and len(wb) == len(wn) and not all(
+                    close(x[0], y[0], rtol=RTOL, atol=atol) and close(x[1], y[1], rtol=RTOL, atol=atol)
+                    for x, y in zip(wb, wn)):
+                ctx.count("preprocess_nearly_tied_distinguishable")
         # with every other step switched off the windows are the reference rotation itself
         if cfg["window"] is None and cfg["detrend"] == "none" and cfg["corners"] == [None, None]:
             for (ans, aew, avt, _), (ns0, ew0, vt0) in zip(wa, arrays):
@@ -1104,8 +1160,215 @@ def _part_preprocess(root, ctx, tier):
                                               "clockwise-from-north rotation by t - deployed")
 
 
+# ---------------------------------------------------------------------------
+# lists of recordings with unequal time steps: azimuthal == stack of single azimuths, RotDpp inside the envelope
+
+# a list of recordings is spelled as a word over the time steps a = dt, b = 2 dt (the 50 Hz station next to the
+# 100 Hz ones), c = dt / 2; record i of the list has the i-th set of signals
+MIXED_DT_FACTORS = {"a": 1.0, "b": 2.0, "c": 0.5}
+# every word over {a, b} of 2-4 letters (the constant ones are the equal-time-step control), every order of one
+# record per time step, and longer lists in which the records of a time step are interleaved with the others
+MIXED_PATTERNS = ["".join(p) for n in (2, 3, 4) for p in itertools.product("ab", repeat=n)] \
+    + ["abc", "acb", "bac", "bca", "cab", "cba", "abca", "abbab", "babaab", "acbcab"]
+MIXED_PATTERNS_QUICK = ["ab", "ba", "aab", "aba", "bab", "bba", "abba", "baba", "cab", "acbcab"]
+OMITTED = "<omitted>"
+# how the caller treats handle_dissimilar_time_steps_by - at BOTH entry points alike: not passed at all, or passed
+MIXED_OPTIONS = [OMITTED, "frequency_domain_resampling", "keeping_smallest_time_step", "keeping_majority_time_step"]
+MIXED_AZSETS = ["unsorted3", "four"]
+# "bare": window, smoothing and FFT settings are left to their defaults at both entry points as well (the default
+# centre frequencies reach 50 Hz, so these lists use dt = 0.005 s); "bare_all": the azimuths too (0, 5 .. 175)
+BARE_DT = 0.005
+BARE_ALL_PATTERNS_QUICK = ["aab"]
+
+
+def _mixed_records(w, pattern, dt, d):
+    L = w[3]
+    arrays = window_arrays(w, len(pattern))
+    recs, dts = [], []
+    for (ns, ew, vt), letter in zip(arrays, pattern):
+        n = (L + 1) // 2 if letter == "b" else L        # the coarser station holds fewer samples
+        step = dt * MIXED_DT_FACTORS[letter]
+        recs.append(mk(ns[:n].copy(), ew[:n].copy(), vt[:n].copy(), step, d))
+        dts.append(step)
+    return recs, dts
+
+
+def _is_involution(pattern):
+    """False when bringing the curves (accumulated time step by time step) back to the order of the list is a
+    permutation that differs from its inverse."""
+    order = [i for letter in dict.fromkeys(pattern) for i, x in enumerate(pattern) if x == letter]
+    return all(order[order[i]] == i for i in range(len(order)))
+
+
+def _mixed_case(ctx, root, w, pattern, dt, d, detail, build, azs, fcs):
+    """One list of recordings, one spelling of the settings.  ``build(kind, fft)`` -> a fresh settings object;
+    ``azs`` None = the azimuths are left to their default as well."""
+    ctx.count("states")
+    s_az = build(dict(kind="azimuthal", azimuths=azs), None)
+    if azs is None:
+        azs = [float(a) for a in s_az.azimuths_in_degrees]
+        detail = dict(detail, default_azimuths=azs)
+    r_az = run_process(ctx, _mixed_records(w, pattern, dt, d)[0], s_az)
+    if r_az[0] != "ok":
+        ctx.violation(f"C04:azimuthal:mixed-time-steps:raises:{r_az[1]}", root, detail=detail, expected="curves",
+                      observed=list(r_az[1:]), explanation="azimuthal processing of a list of recordings with "
+                                                           "unequal time steps raised")
+        return
+    n = _n_after(s_az)
+    if not isinstance(n, (int, np.integer)):
+        ctx.count("azimuthal_fft_length_unknown")
+        return
+    fft = {"n": int(n)}
+    detail = dict(detail, fft_n=int(n))
+    singles = {}
+
+    def single(a):
+        if a not in singles:
+            s_1 = build(dict(kind="single", azimuth=a), fft)
+            r_1 = run_process(ctx, _mixed_records(w, pattern, dt, d)[0], s_1)
+            if r_1[0] == "ok" and _n_after(s_1) != n:
+                ctx.count("single_azimuth_resolves_other_fft_length")
+                r_1 = ("other-n",)
+            elif r_1[0] != "ok":
+                ctx.violation(f"C04:single_azimuth:mixed-time-steps:raises:{r_1[1]}", root,
+                              detail=dict(detail, azimuth=a), expected="curves", observed=list(r_1[1:]),
+                              explanation="single-azimuth processing of a list of recordings with unequal time "
+                                          "steps raised")
+            singles[a] = r_1
+        return singles[a]
+
+    rows = [single(a) for a in azs]
+    if any(r[0] != "ok" for r in rows):
+        return
+    rows = [r[1] for r in rows]
+    ctx.count("validated")
+    option = detail["option"]
+    spelled = "option-omitted" if option == OMITTED else "option-passed"
+    ctx.nontrivial_case(("mixed", root["wi"], pattern, repr(detail["config"]), option, detail["spelling"]))
+    ctx.outcome(("mixed", pattern, option, detail["spelling"], rows[0].shape[0], round(float(rows[0].flat[0]), 6)))
+    if len(set(pattern)) > 1:
+        ctx.count("mixed_time_steps_validated")
+        if rows[0].shape[0] == len(pattern):
+            ctx.count("mixed_all_records_kept")
+        else:
+            ctx.count("mixed_records_dropped")
+        if rows[0].shape[0] > 1 and not close(rows[0][0], rows[0][-1], rtol=1e-6):
+            ctx.count("mixed_rows_differ_between_records")
+        if rows[0].shape[0] == len(pattern) and not _is_involution(pattern):
+            ctx.count("mixed_reordering_is_not_its_own_inverse")
+    if (root["wi"], pattern, option, detail["spelling"]) == (0, "ab", OMITTED, "explicit") \
+            and detail["config"].get("default"):
+        ctx.sample(dict(root=root, case=detail, azimuthal_first_row=r_az[1][0].tolist(),
+                        single_first_row=rows[0][0].tolist()))
+    ex = r_az[3]
+    expected_rows = [int(r.shape[0]) for r in rows]
+    if ex["azimuths"] != [float(a) for a in azs]:
+        ctx.violation("C04:azimuthal:mixed-time-steps:azimuths", root, detail=detail, expected=azs, observed=ex,
+                      explanation="the azimuthal result does not hold one HVSR set per requested azimuth, in order")
+    elif ex["rows_per_azimuth"] != expected_rows:
+        ctx.violation(f"C04:azimuthal:mixed-time-steps:{spelled}:curves-per-azimuth-differ-from-single-azimuth", root,
+                      detail=detail, expected=dict(curves_per_azimuth=expected_rows),
+                      observed=dict(curves_per_azimuth=ex["rows_per_azimuth"]),
+                      explanation="for a list of recordings with unequal time steps the azimuthal result holds "
+                                  "another number of curves per azimuth than single-azimuth processing of the same "
+                                  "list with the same settings (handle_dissimilar_time_steps_by "
+                                  + ("left to its default at both entry points)" if option == OMITTED
+                                     else f"= {option!r} at both entry points)"))
+    else:
+        stack = np.vstack(rows)
+        if not bitwise_equal(r_az[1], stack):
+            worst = "differs-beyond-1e-9" if not close(r_az[1], stack, rtol=RTOL) else "differs-in-last-bits"
+            if worst == "differs-beyond-1e-9" and sorted(x.tobytes() for x in r_az[1]) == \
+                    sorted(x.tobytes() for x in stack):
+                worst = "rows-in-another-order"
+            ctx.violation(f"C04:azimuthal:mixed-time-steps:{spelled}:stack-of-single-azimuth:{worst}", root,
+                          detail=detail, expected=stack.tolist(), observed=r_az[1].tolist(),
+                          explanation="for a list of recordings with unequal time steps the azimuthal result is not "
+                                      "exactly the stack of the single-azimuth results computed with the same "
+                                      "settings and FFT length")
+    if fcs is not None and not bitwise_equal(r_az[2], np.asarray(fcs, dtype=float)):
+        ctx.violation("C04:azimuthal:mixed-time-steps:frequency-vector", root, detail=detail, expected=fcs,
+                      observed=r_az[2].tolist(),
+                      explanation="frequency vector of the azimuthal result is not the requested centres")
+    # RotDpp of the same list: row k inside the envelope of row k of the single-azimuth results
+    curves, r_azs = {}, None
+    for p in PERCENTILES:
+        s_p = build(dict(kind="rotdpp", percentile=p, azimuths=None if "default_azimuths" in detail else azs), fft)
+        r_azs = [float(a) for a in s_p.azimuths_in_degrees]
+        r_p = run_process(ctx, _mixed_records(w, pattern, dt, d)[0], s_p)
+        if r_p[0] != "ok":
+            ctx.violation(f"C04:rotdpp:mixed-time-steps:raises:{r_p[1]}", root, detail=dict(detail, percentile=p),
+                          expected="curves", observed=list(r_p[1:]),
+                          explanation="RotDpp processing of a list of recordings with unequal time steps raised")
+            return
+        if _n_after(s_p) != n:
+            ctx.count("rotdpp_resolves_other_fft_length")
+            return
+        curves[p] = r_p[1]
+    env = [single(a) for a in r_azs]
+    if any(r[0] != "ok" for r in env):
+        return
+    env = [r[1] for r in env]
+    ctx.count("mixed_rotdpp_validated")
+    if any(c.shape != env[0].shape for c in curves.values()):
+        ctx.violation(f"C04:rotdpp:mixed-time-steps:{spelled}:number-of-curves-differs-from-single-azimuth", root,
+                      detail=detail, expected=dict(curves=int(env[0].shape[0])),
+                      observed={str(p): list(c.shape) for p, c in curves.items()},
+                      explanation="for a list of recordings with unequal time steps RotDpp returns another number "
+                                  "of curves than single-azimuth processing of the same list with the same settings")
+        return
+    lo, hi = np.min(env, axis=0), np.max(env, axis=0)
+    if np.any(curves[100] > curves[0] * (1 + 1e-6)):
+        ctx.count("rotdpp_strictly_increasing")
+    _judge_rotdpp(ctx, root, dict(detail, rotdpp_azimuths=r_azs), lo, hi, curves, ":mixed-time-steps")
+
+
+def _part_mixed(root, ctx, tier):
+    w = tuple(WINDOWS[root["wi"]])
+    L, dt, d, pattern = w[3], w[4], root["d"], root["pattern"]
+    if root.get("bare_all"):
+        options = MIXED_OPTIONS if tier != "quick" else MIXED_OPTIONS[:1]
+        for option in options:
+            kw = {} if option == OMITTED else dict(handle_dissimilar_time_steps_by=option)
+            detail = dict(time_steps=_mixed_records(w, pattern, BARE_DT, d)[1], pattern=pattern, option=option,
+                          spelling="bare_all", config={}, deployed=d, L=L)
+            _mixed_case(ctx, root, w, pattern, BARE_DT, d, detail, lambda kind, fft, kw=kw: _construct(kind, kw),
+                        None, None)
+        return
+    # the slowest station decides the Nyquist frequency: centres and bandwidths are laid out on its grid
+    space, fcs_sets = cfg_space(L, dt * max(MIXED_DT_FACTORS[x] for x in pattern), ["default", "nopad"])
+    if tier != "quick":
+        space["fft"].append("n65536")
+    space = dict(option=list(MIXED_OPTIONS), azset=list(MIXED_AZSETS), **space)
+    for case in product.deviations(space, 1 if tier == "quick" else 2):
+        cfg = {k: case[k] for k in ("fft", "smoothing", "tukey", "fcs")}
+        option, azs, fcs = case["option"], AZ_SETS[case["azset"]], fcs_sets[case["fcs"]]
+        detail = dict(time_steps=_mixed_records(w, pattern, dt, d)[1], pattern=pattern, option=option,
+                      spelling="explicit", config=dict(cfg, default=_is_default(space, case)), fcs=fcs, azimuths=azs,
+                      deployed=d, L=L)
+
+        def build(kind, fft, cfg=cfg, fcs=fcs, option=option):
+            s = make_settings(kind, cfg, fcs, fft=fft) if option == OMITTED else None
+            if s is None:
+                op, bw = cfg["smoothing"]
+                s = _construct(kind, dict(
+                    window_type_and_width=["tukey", cfg["tukey"]],
+                    smoothing=dict(operator=op, bandwidth=bw, center_frequencies_in_hz=list(fcs)),
+                    fft_settings=FFT_REQ[cfg["fft"]]() if fft is None else dict(fft),
+                    handle_dissimilar_time_steps_by=option))
+            return s
+        _mixed_case(ctx, root, w, pattern, dt, d, detail, build, azs, fcs)
+    # nothing but the azimuths (thorough: and the option) passed: every other argument at its default
+    for option in (MIXED_OPTIONS[:1] if tier == "quick" else MIXED_OPTIONS):
+        kw = {} if option == OMITTED else dict(handle_dissimilar_time_steps_by=option)
+        azs = AZ_SETS["two"]
+        detail = dict(time_steps=_mixed_records(w, pattern, BARE_DT, d)[1], pattern=pattern, option=option,
+                      spelling="bare", config={}, azimuths=azs, deployed=d, L=L)
+        _mixed_case(ctx, root, w, pattern, BARE_DT, d, detail, lambda kind, fft, kw=kw: _construct(kind, kw), azs, None)
+
+
 PARTS = dict(orient=_part_orient, steps=_part_steps, history=_part_history, polarised=_part_polarised, single=_part_single, azimuthal=_part_azimuthal,
-             rotdpp=_part_rotdpp, invariant=_part_invariant, preprocess=_part_preprocess)
+             rotdpp=_part_rotdpp, invariant=_part_invariant, preprocess=_part_preprocess, mixed=_part_mixed)
 
 
 # ---------------------------------------------------------------------------
@@ -1139,6 +1402,14 @@ NON_VACUITY = [
     ("control_changes_under_rotation", "the geometric-mean control never changed under rotation: the invariance "
                                        "oracle cannot fail on the enumerated cases"),
     ("preprocess_orientation_changes_output", "the orientation step of preprocess never changed the windows"),
+    ("preprocess_nearly_tied_distinguishable", "a re-orientation by a fraction of a degree before preprocessing was "
+                                               "never distinguishable from none at the comparison tolerance"),
+    ("mixed_all_records_kept", "no list of recordings with unequal time steps was processed with all records kept"),
+    ("mixed_records_dropped", "no handle_dissimilar_time_steps_by option ever dropped a recording"),
+    ("mixed_rows_differ_between_records", "the curves of the records of a mixed list never differed: a curve "
+                                          "attributed to the wrong record would go unseen"),
+    ("mixed_reordering_is_not_its_own_inverse", "no mixed list needed a re-ordering that differs from its inverse"),
+    ("mixed_rotdpp_validated", "RotDpp was never judged on a list of recordings with unequal time steps"),
 ]
 
 
@@ -1224,4 +1495,40 @@ _describe_base = describe
 def describe(tier):     # noqa: F811 - the base description plus what later rounds added to the space
     d = _describe_base(tier)
     d["rule"] = d["rule"] + " " + 'Every recording is constructed with metadata carried over from another recording (deployed and current orientation 123 degrees).'
+    quick = tier == "quick"
+    d["rule"] += (
+        "  preprocess additionally has the dimension 'tie' (nearly tied orientations, base angle b = the root's "
+        "deployed orientation): deployed b + {0.06, -0.08, 0.5} oriented to b, and deployed b oriented to b + 0.03 "
+        "(the target dimension is replaced; integer target types only with whole-degree targets).  mixed: lists "
+        f"of recordings whose time steps spell {'10 words' if quick else 'every word'} over a = dt, b = 2 dt "
+        + ("(ab ba aab aba bab bba abba baba) and c = dt / 2 (cab acbcab)" if quick else
+           "of 2-4 letters, every order of abc, and abca abbab babaab acbcab (c = dt / 2)")
+        + ", record i with the i-th signal set (b: half the samples), on "
+        f"{'one window set per word' if quick else 'two window sets per word'}; "
+        f"{'every configuration within 1 deviation' if quick else 'every configuration within 2 deviations'} of "
+        "{handle_dissimilar_time_steps_by omitted / frequency_domain_resampling / keeping_smallest_time_step / "
+        "keeping_majority_time_step (spelled the same way for the azimuthal, single-azimuth and RotDpp settings), "
+        f"2 azimuth sequences, {2 if quick else 3} FFT requests, 3 operators, 3 tapers, 2 centre sets}}; plus the "
+        "'bare' spelling (window, smoothing, FFT settings omitted at every entry point, azimuths [0, 90], dt = "
+        f"0.005 s) with the option {'omitted' if quick else 'omitted and with each of its 3 values'}; plus "
+        "'bare_all' (the azimuths omitted too: 0, 5 .. 175) for "
+        f"{'the word aab' if quick else 'every word of 2-3 letters with two or three time steps, all 4 options'}.  "
+        "Oracles: azimuthal result == stack of the single-azimuth results of the same list (azimuths, curves per "
+        "azimuth, bit for bit at the FFT length the azimuthal run reports); RotD0/25/50/100 of the same list: same "
+        "number of curves, monotone, row k inside [min, max] of row k over the azimuths, RotD0 == min, RotD100 == max.")
+    d["bounds"].update(preprocess_ties=PRE_TIES,
+                       mixed_patterns=MIXED_PATTERNS_QUICK if quick else MIXED_PATTERNS,
+                       mixed_time_step_factors=MIXED_DT_FACTORS, mixed_options=MIXED_OPTIONS,
+                       mixed_azimuth_sets=MIXED_AZSETS, mixed_deviations=1 if quick else 2,
+                       bare_time_step=BARE_DT,
+                       bare_all_patterns=BARE_ALL_PATTERNS_QUICK if quick else "words of 2-3 letters with >= 2 time steps")
+    d["assumptions"] += [
+        "lists with unequal time steps: 'the same settings' means the same spelling at both entry points - an "
+        "argument omitted for the azimuthal settings is omitted for the single-azimuth (and RotDpp) settings too; "
+        "the number of curves is whatever single-azimuth processing returns for the list (records dropped by a "
+        "keeping_* option are dropped on both sides); which records an option keeps is C03's subject",
+        "nearly tied orientations: a sensor deployed 0.03-0.5 degree away from the target is rotated like any "
+        "other (rtol 1e-9 against orient_sensor_to and against the reference rotation); degrees_from_north of a "
+        "single-precision target is compared at 1e-4 degree",
+    ]
     return d
